@@ -25,6 +25,20 @@ fn coords_of(rr: &RunResult, pid: u32) -> Vec<CoordT> {
     rr.rec.probes.keys().filter(|(p, _)| *p == pid).map(|(_, c)| *c).collect()
 }
 
+/// block ids of the producers feeding the repartition of the step at `path` (the blocks that
+/// hold its "pre" / "preL" / "preR" probes)
+pub fn upstream_blocks(rr: &RunResult, path: &[usize]) -> BTreeSet<u64> {
+    let mut s = BTreeSet::new();
+    for m in rr.meta.iter().filter(|m| m.path == path && matches!(m.pos.as_str(), "pre" | "preL" | "preR")) {
+        for (p, c) in rr.rec.probes.keys() {
+            if *p == m.id {
+                s.insert(c.0);
+            }
+        }
+    }
+    s
+}
+
 /// (top-level) stream id -> (index of the step that produced it, output index)
 pub fn producers(steps: &[Step]) -> Vec<(usize, usize)> {
     let mut v = vec![];
@@ -160,8 +174,9 @@ pub fn c06(sc: &Scenario, rr: &RunResult) -> Vec<Violation> {
     for m in rr.meta.iter().filter(|m| m.pos == "start") {
         for c in coords_of(rr, m.id) {
             let hist = &rr.rec.probes[&(m.id, c)];
-            // incoming links of this replica
-            let links: Vec<(&LinkKey, &LinkLog)> = rr.rec.links.iter().filter(|(k, _)| k.to == c).collect();
+            // incoming data links of this replica (not the state feedback of a loop head)
+            let prev = upstream_blocks(rr, &m.path);
+            let links: Vec<(&LinkKey, &LinkLog)> = rr.rec.links.iter().filter(|(k, _)| k.to == c && prev.contains(&k.prev_block)).collect();
             if links.is_empty() {
                 continue;
             }
@@ -228,7 +243,8 @@ pub fn c17(sc: &Scenario, rr: &RunResult) -> Vec<Violation> {
     for m in rr.meta.iter().filter(|m| m.pos == "start") {
         for c in coords_of(rr, m.id) {
             let hist = &rr.rec.probes[&(m.id, c)];
-            let links: Vec<(&LinkKey, &LinkLog)> = rr.rec.links.iter().filter(|(k, _)| k.to == c).collect();
+            let prev = upstream_blocks(rr, &m.path);
+            let links: Vec<(&LinkKey, &LinkLog)> = rr.rec.links.iter().filter(|(k, _)| k.to == c && prev.contains(&k.prev_block)).collect();
             if links.is_empty() {
                 continue;
             }
